@@ -744,7 +744,7 @@ pub fn builder_orders_part(t: &mut Tally, prop: &str) {
                     let mut lists: Vec<Vec<S>> = vec![];
                     for va in [false, true] {
                         for aa in [false, true] {
-                            for ms in 0..2u8 {
+                            for ms in 0..3u8 {
                                 if (audio.is_none() && aa) || (!meta && ms > 0) {
                                     continue;
                                 }
@@ -778,7 +778,9 @@ pub fn builder_orders_part(t: &mut Tally, prop: &str) {
                                     S::Fast => b.with_fast_start(fast),
                                     // style 0: one with_metadata call; style 1: with_metadata(title) then the two setters
                                     S::Meta(0) => b.with_metadata(metadata(cfg.meta.as_ref().unwrap())),
-                                    S::Meta(_) => b.with_metadata(Metadata::new().with_title("order")).set_create_time(86_400 * 365).set_language("deu"),
+                                    S::Meta(1) => b.with_metadata(Metadata::new().with_title("order")).set_create_time(86_400 * 365).set_language("deu"),
+                                    // style 2: the two alias setters in the other order
+                                    S::Meta(_) => b.with_metadata(Metadata::new().with_title("order")).set_language("deu").set_create_time(86_400 * 365),
                                 };
                             }
                             let r = run_on(b, &ops, &Op::FinishInPlace);
